@@ -104,7 +104,7 @@ func lfExpect(prefix string, as []gattr, out *[]lfPair) {
 			*out = append(*out, lfPair{key, "<nil>"})
 		case "string", "stringer", "duration", "error", "bytes", "level", "fallback":
 			*out = append(*out, lfPair{key, "Q" + v.text})
-		case "time":
+		case "time", "tstamp":
 			*out = append(*out, lfPair{key, "Q" + v.text})
 		default:
 			*out = append(*out, lfPair{key, "R"}) // raw / list: checked for being one token, content by the model correspondence
@@ -135,6 +135,23 @@ func runC05(r *run) {
 				items = []gattr{{key: "inner", isGroup: true, val: gval{kind: "group", items: []gattr{leaf}}}, {key: "n", val: gval{kind: "int", goVal: 1, tok: "I:1"}}}
 			}
 			c.attrs = append(c.attrs, gattr{key: "req", isGroup: true, val: gval{kind: "group", items: items}})
+		}
+		if g.chance(1, 6) {
+			// a top-level attribute named like the reserved field and holding a time.Time (printed like the record's
+			// own timestamp); half of the time it is the last key in sort order
+			t := time.Unix(int64(g.intn(2000000000)), int64(g.intn(1000000))*1000)
+			tv := c09TimeAttr(t)
+			tv.text = t.UTC().Format(encLayout)
+			if g.chance(1, 2) {
+				var keep []gattr
+				for _, a := range c.attrs {
+					if a.key < "time" {
+						keep = append(keep, a)
+					}
+				}
+				c.attrs = keep
+			}
+			c.attrs = append(c.attrs, gattr{key: "time", val: tv})
 		}
 		if g.chance(1, 2) {
 			c.name = []string{"app", "my logger", "q\"uote"}[g.intn(3)]
@@ -206,6 +223,18 @@ func runC05(r *run) {
 			}
 		}
 		pairs, err := lfTokenize(line[:len(line)-1])
+		if i%3 == 0 {
+			// the reader model of the proof (split at spaces outside quotes, then at the first '=') against this tokenizer
+			obs := "err"
+			if err == nil {
+				var parts []string
+				for _, p := range pairs {
+					parts = append(parts, hxs(p.k)+":"+hxs(p.v))
+				}
+				obs = "ok " + strings.Join(parts, " ")
+			}
+			r.emit("Q tok "+hxs(line[:len(line)-1]), obs)
+		}
 		if err != nil {
 			r.violate(violation{What: "the logfmt line does not tokenize", Input: encDescribe(c), Actual: err.Error() + " in " + fmt.Sprintf("%q", line)})
 			continue
